@@ -45,21 +45,50 @@ def well_formed(t):
     return None if ok else "incomplete %s node (%d children)" % (n, k)
 
 
+def to_ascii(x, table):
+    """nothing non-ASCII goes through TLC (its state queue spills to disk with a lossy string encoding): every
+    non-ASCII text of a program is replaced by a placeholder @U<n> and substituted back in TLC's output"""
+    if isinstance(x, str):
+        if x.isascii(): return x
+        if x not in table: table[x] = "@U%d" % (len(table) + 1)
+        return table[x]
+    if isinstance(x, list): return [to_ascii(y, table) for y in x]
+    if isinstance(x, dict): return {k: to_ascii(v, table) for k, v in x.items()}
+    return x
+
+
+def from_ascii(x, back):
+    if isinstance(x, str):
+        if "@U" in x:
+            for ph in sorted(back, key=len, reverse=True):
+                x = x.replace(ph, back[ph])
+        return x
+    if isinstance(x, list): return [from_ascii(y, back) for y in x]
+    if isinstance(x, dict): return {k: from_ascii(v, back) for k, v in x.items()}
+    return x
+
+
 def layouts(ctx, progs, cfgs, simulate=None):
     pf = os.path.join(ctx.scratch, "progs-gram.ndjson")
+    table = {}
     with open(pf, "w") as f:
         for p in progs:
-            f.write(json.dumps(p, ensure_ascii=True, separators=(",", ":")) + "\n")
+            f.write(json.dumps(to_ascii(p, table), ensure_ascii=True, separators=(",", ":")) + "\n")
+    back = {v: k for k, v in table.items()}
+    _vectors = common.vectors
+    class _C:      # local view of common with substituting vectors()
+        @staticmethod
+        def vectors(txt, key=None): return [from_ascii(v, back) for v in _vectors(txt, key)]
     trees, lay = {}, []
     for cfg in cfgs:
         txt, info = common.tlc(ctx, "MC_ZnGrammar", "MC_ZnGrammar_%s.cfg" % cfg, timeout=3000, files=[(pf, "progs.ndjson")])
-        for v in common.vectors(txt):
+        for v in _C.vectors(txt):
             if v.get("k") == "tree": trees[v["id"]] = v["tree"]
             elif v.get("k") == "layout": lay.append(v)
     if simulate:
         txt, info = common.tlc(ctx, "MC_ZnGrammar", "MC_ZnGrammar_deep.cfg", workers=4, timeout=1500, files=[(pf, "progs.ndjson")], simulate="num=%d" % simulate, depth=400,
                                extra=["-seed", str(ctx.seed)])
-        for v in common.vectors(txt):
+        for v in _C.vectors(txt):
             if v.get("k") == "layout": lay.append(v)
     return trees, lay
 
